@@ -1,6 +1,7 @@
 package main
 
 import (
+	"os"
 	"bufio"
 	"fmt"
 	"io"
@@ -26,6 +27,7 @@ type Solver struct {
 	nufs    int
 	naxioms int
 	softMS  int
+	fastMS  int // budget of the first, incremental attempt (<= softMS); unknowns escalate to fresh one-shot solvers
 	// stats
 	Queries   int
 	Sat       int
@@ -43,6 +45,13 @@ var globalSolverSeconds int64 // microseconds, atomic
 
 func NewSolver(bin string, tt *TermTable, softMS int) *Solver {
 	s := &Solver{bin: bin, tt: tt, softMS: softMS}
+	s.fastMS = 3000
+	if v := os.Getenv("VERIF_FAST_MS"); v != "" {
+		fmt.Sscanf(v, "%d", &s.fastMS)
+	}
+	if s.fastMS > softMS || s.fastMS <= 0 {
+		s.fastMS = softMS
+	}
 	switch {
 	case strings.Contains(bin, "cvc5"):
 		s.args = []string{"--incremental", "--lang=smt2", "--produce-models"}
@@ -69,7 +78,7 @@ func (s *Solver) start() {
 		s.send("(set-logic ALL)")
 		s.send(fmt.Sprintf("(set-option :tlimit-per %d)", s.softMS))
 	} else {
-		s.send(fmt.Sprintf("(set-option :timeout %d)", s.softMS))
+		s.send(fmt.Sprintf("(set-option :timeout %d)", s.fastMS))
 		s.send("(set-option :model.completion true)")
 	}
 }
@@ -183,7 +192,11 @@ func (s *Solver) Check(assertions []*Term, wantModel []*Term) (res string, model
 	s.send("(check-sat)")
 	s.Queries++
 	t0 := time.Now()
-	line, ok := s.readLineTimeout(time.Duration(s.softMS)*time.Millisecond*2 + 5*time.Second)
+	firstMS := s.fastMS
+	if strings.Contains(s.bin, "cvc5") {
+		firstMS = s.softMS
+	}
+	line, ok := s.readLineTimeout(time.Duration(firstMS)*time.Millisecond*2 + 5*time.Second)
 	dt := time.Since(t0)
 	s.SolverSec += dt.Seconds()
 	atomic.AddInt64(&globalSolverSeconds, dt.Microseconds())
@@ -529,12 +542,25 @@ func (s *Solver) script(assertions []*Term, wantModel []*Term) string {
 
 // oneShot decides the query in a fresh, non-incremental solver process (z3's
 // nonlinear real core is much stronger outside push/pop).
+// oneShot re-asks a query in fresh, non-incremental solver processes: first
+// with a short budget (z3's nlsat/bit-blasting tactics outside push/pop decide
+// most of what the incremental core gives up on within seconds), then with the
+// full budget derived from the soft timeout.
 func (s *Solver) oneShot(assertions []*Term, wantModel []*Term) (string, Model) {
 	if strings.Contains(s.bin, "cvc5") || s.noOneShot {
 		return "unknown", nil
 	}
 	script := s.script(assertions, wantModel)
-	secs := s.softMS/1000*2 + 5
+	full := s.softMS/1000*2 + 5
+	if full > 15 {
+		if r, m := s.oneShotT(script, 12); r != "unknown" {
+			return r, m
+		}
+	}
+	return s.oneShotT(script, full)
+}
+
+func (s *Solver) oneShotT(script string, secs int) (string, Model) {
 	cmd := exec.Command(s.bin, "-in", fmt.Sprintf("-T:%d", secs))
 	cmd.Stdin = strings.NewReader(script)
 	t0 := time.Now()
